@@ -10,7 +10,7 @@ SALTS = 8
 GUARD_STEPS = 250
 RULE = ('each run = one generated base argument (propositional / modal / first-order with identity) in one logic (stratified '
         'over the 57) and its relatives: (1) reflexivity: the argument with its conclusion added as a premise at a seeded '
-        'position; (2) monotonicity: the argument plus a generated extra premise; (3) renaming: an injective renaming of sentence '
+        'position; (2) monotonicity: the argument plus a generated extra premise, and (half of the runs) the argument plus 3-8 extra premises that all repeat one of its subformulas next to letters of their own or open further worlds; (3) renaming: an injective renaming of sentence '
         'letters, constants (incl. order-reversing), predicates (same arity) and bound variables. Every member is proved under '
         '2 independent seeded configurations (options, drive mode, tie-break order, cache size). Laws: (1) never refuted and, if '
         'a verdict is reached, valid; (2) base valid in some run => extended never refuted; (3) never valid on one side and '
@@ -143,16 +143,41 @@ def make_family(ctx):
         k = rng.randrange(len(vs) + 1)
         fam['reflexive'] = (vs[:k] + [lit] + vs[k:] + ([rng.choice(prems)] if prems and rng.random() < 0.3 else []), lit)
     extra = lexgen.gen_sentence(rng, prof, depth=rng.choice((0, 1, 2)))
+    if refsem.get(logic).modal and rng.random() < 0.3:
+        # a premise that only opens or demands further worlds
+        x = ('A', rng.randrange(3), 0)
+        extra = rng.choice((('O', 'Necessity', (('O', 'Possibility', (x,)),)), ('O', 'Possibility', (x,)), ('O', 'Necessity', (x,))))
     mp = list(prems)
     mp.insert(rng.randrange(len(mp) + 1), extra)
     fam['extended'] = (mp, conc)
     fam['renamed'] = rename(rng, prems, conc)
+    if prems and rng.random() < 0.5:
+        fam['extended2'] = (bulk_extension(rng, prems, refsem.get(logic).modal), conc)
     return logic, fam
+
+def bulk_extension(rng, prems, modal):
+    """Many extra premises at once, all repeating one sentence of the argument next to letters of
+    their own (so that the same node content piles up on a branch, or in many worlds)."""
+    pool = [x for s in prems for x in refsem.walk(s) if not refsem._free_vars(x)]
+    pool.sort(key=refsem.size)
+    p = rng.choice(pool[:max(1, len(pool) // 2)])
+    extras = []
+    for i in range(rng.choice((3, 5, 6, 7, 8))):
+        fresh = ('A', 3 + i % 2, 1 + i // 2)
+        r = rng.random()
+        if r < 0.55: e = ('O', 'Conjunction', (p, fresh))
+        elif r < 0.75: e = ('O', 'Conjunction', (fresh, p))
+        elif modal and r < 0.95: e = ('O', 'Possibility', (fresh,))
+        else: e = p
+        extras.append(e)
+    mp = list(prems)
+    at = rng.randrange(len(mp) + 1)
+    return mp[:at] + extras + mp[at:] if rng.random() < 0.5 else mp + extras
 
 def judge_family(ctx, logic, fam, record=True):
     srng = ctx.rng('schedule')
     runs = {}
-    for name in ('base', 'reflexive', 'extended', 'renamed'):
+    for name in ('base', 'reflexive', 'extended', 'extended2', 'renamed'):
         if name not in fam:
             continue
         prems, conc = fam[name]
@@ -178,14 +203,16 @@ def judge_family(ctx, logic, fam, record=True):
         elif cls('reflexive', 'valid'):
             covered += 1
     # (2) monotonicity
-    if viol is None and cls('base', 'valid') and 'extended' in runs:
-        bad = cls('extended', 'refuted')
-        if bad:
-            key, why = proofcheck.explain_conflict(ctx.rng('r1'), cls('base', 'valid')[0], bad[0])
-            viol = ('monotonicity', key, '%s: %s is valid but with an extra premise %s is refuted; %s' % (
-                logic, barg, lexgen.argstr(bad[0][0].prems, bad[0][0].conc), why), [cls('base', 'valid')[0][0], bad[0][0]])
-        elif cls('extended', 'valid'):
-            covered += 1
+    for ext in ('extended', 'extended2'):
+        if viol is None and cls('base', 'valid') and ext in runs:
+            bad = cls(ext, 'refuted')
+            if bad:
+                key, why = proofcheck.explain_conflict(ctx.rng('r1'), cls('base', 'valid')[0], bad[0])
+                viol = ('monotonicity', key, '%s: %s is valid but with %s is refuted; %s' % (
+                    logic, barg, 'an extra premise %s' % lexgen.argstr(bad[0][0].prems, bad[0][0].conc) if ext == 'extended' else
+                    'several extra premises (%s)' % lexgen.argstr(bad[0][0].prems, bad[0][0].conc), why), [cls('base', 'valid')[0][0], bad[0][0]])
+            elif cls(ext, 'valid'):
+                covered += 1
     # (3) renaming
     if viol is None and 'renamed' in runs:
         for a, b in (('base', 'renamed'), ('renamed', 'base')):
